@@ -1,7 +1,7 @@
 (** Dispatch table of the correspondence checks: property number, then the
     lab kind tag that leads every case input. *)
 From Coq Require Import List ZArith.
-From TR Require Import Lib.Sx Run.C12 Run.Eng Run.Doc.
+From TR Require Import Lib.Sx Run.C12 Run.Eng Run.Doc Run.Pol.
 Import ListNotations.
 Open Scope Z_scope.
 
@@ -12,5 +12,6 @@ Definition check (prop : Z) (inp impl : sx) : sx :=
   else match kind_of inp with
        | 1 => check_eng prop inp impl
        | 2 => check_doc prop inp impl
+       | 3 | 4 | 5 => check_pol prop inp impl
        | _ => badcase
        end.
